@@ -175,6 +175,10 @@ type PoolConn struct {
 	W     ConnCfg           `json:"cfg"`
 	Steps []WStep           `json:"steps"`
 	Fault *xport.WriteFault `json:"fault,omitempty"`
+	// CloseAt > 0: Conn.Close() is called right after the CloseAt-th API call
+	// of the program (legal at any moment, also while a message is open); the
+	// transport then refuses every further operation.
+	CloseAt int `json:"close_at,omitempty"`
 }
 
 // PoolCase is 1-4 connections sharing one pool, interleaved call by call.
@@ -200,6 +204,9 @@ func genPoolCase(t *rapid.T) PoolCase {
 		pc.Steps = genWriteProgram(t, pc.W.EffWriteBuf(), WGenOpts{MaxSteps: 5, AllowHuge: false, AllowBad: true, AllowClose: true, AllowCtl: true})
 		if rapid.IntRange(0, 2).Draw(t, "hasfault") == 0 {
 			pc.Fault = &xport.WriteFault{K: rapid.IntRange(0, 12).Draw(t, "fault_k"), Kind: rapid.SampledFrom(wfaultKinds).Draw(t, "fault_kind")}
+		}
+		if rapid.IntRange(0, 3).Draw(t, "connclose") == 0 {
+			pc.CloseAt = rapid.IntRange(1, 9).Draw(t, "close_at")
 		}
 		c.Conns = append(c.Conns, pc)
 	}
@@ -250,7 +257,22 @@ func checkC20(c PoolCase, o *Obs) error {
 				}
 				granted = false
 			}
+			ncalls := 0
 			after := func(cl *Call, holding bool) {
+				if ncalls++; pc.CloseAt > 0 && ncalls == pc.CloseAt {
+					pool.mu.Lock()
+					before := pool.outstanding[id]
+					pool.mu.Unlock()
+					conn.Close()
+					if !st.tr.WriteFaultFired() {
+						st.tr.SetWriteFault(&xport.WriteFault{K: 0, Kind: xport.FaultError})
+					}
+					pool.mu.Lock()
+					if now := pool.outstanding[id]; now != before && st.err == nil {
+						st.err = fmt.Errorf("connection %d: Conn.Close() after step %d %s changed the number of pooled buffers it holds from %d to %d (message writer open: %v): a buffer is returned when its message ends, and Close ends no message - the writer still uses the buffer", id, cl.Step, cl.API, before, now, holding)
+					}
+					pool.mu.Unlock()
+				}
 				pool.mu.Lock()
 				defer pool.mu.Unlock()
 				want := 0
@@ -263,7 +285,19 @@ func checkC20(c PoolCase, o *Obs) error {
 					st.err = fmt.Errorf("connection %d after step %d %s (err=%v): holds %d pooled buffers although no message writer is open (a buffer may be held only while a message is being written)", id, cl.Step, cl.API, cl.Err, got)
 				}
 			}
-			st.tw = RunWriteHooked(conn, st.tr, steps, pc.W.Compress, pc.W.Server, gate, after)
+			func() {
+				defer func() {
+					if r := recover(); r != nil {
+						pool.mu.Lock()
+						if st.err == nil {
+							st.err = fmt.Errorf("PANIC in a write call of connection %d: %v", id, r)
+						}
+						pool.mu.Unlock()
+						st.tw = &WTrace{}
+					}
+				}()
+				st.tw = RunWriteHooked(conn, st.tr, steps, pc.W.Compress, pc.W.Server, gate, after)
+			}()
 			st.fin = true
 			pool.mu.Lock()
 			st.finished = true
@@ -357,7 +391,7 @@ func checkC20(c PoolCase, o *Obs) error {
 	shared, endedByErr := false, false
 	for i, st := range states {
 		pc := c.Conns[i]
-		if pc.Fault != nil && st.tr.WriteFaultFired() {
+		if (pc.Fault != nil || pc.CloseAt > 0) && st.tr.WriteFaultFired() {
 			endedByErr = true
 			if _, _, derr := wsref.DecodeFrames(st.tr.Wrote, !pc.W.Server); derr != nil {
 				return fmt.Errorf("connection %d: bytes accepted before its transport fault are not well-formed: %v", i, derr)
@@ -379,6 +413,9 @@ func checkC20(c PoolCase, o *Obs) error {
 		shared = true
 	}
 	for _, pc := range c.Conns {
+		if pc.CloseAt > 0 {
+			o.Class("conn_Close_called_mid_program")
+		}
 		for _, s := range pc.Steps {
 			if s.Op == "writer" && s.Implicit || s.Op == "bad" {
 				endedByErr = true
